@@ -102,6 +102,9 @@ type (
 		color        string
 		converters   []*converters.CachedConverter
 		referencedBy map[string]struct{}
+		// identity of the AddTag call that created the tag: updates copy the struct and keep it,
+		// a tag that was deleted and added again under the same name gets a new one
+		created *byte
 	}
 	TagInfo struct {
 		Name           string
@@ -357,6 +360,7 @@ nextStateFile:
 				features:     q.Conditions.Features(),
 				color:        t.Color,
 				referencedBy: make(map[string]struct{}),
+				created:      new(byte),
 			}
 			if strings.HasPrefix(t.Name, "mark/") || strings.HasPrefix(t.Name, "generated/") {
 				ids, ok := q.Conditions.StreamIDs(mgr.nextStreamID)
@@ -866,8 +870,8 @@ func (mgr *Manager) updateTagJob(name string, t tag, tagDetails map[string]query
 	t.Uncertain = bitmask.LongBitmask{}
 	verifGate("tag", name)
 	mgr.jobs <- func() {
-		// don't touch the tag if it was modified
-		if ot, ok := mgr.tags[name]; ok && ot.definition == t.definition {
+		// don't touch the tag if it was modified, or deleted and added again while the job was running
+		if ot, ok := mgr.tags[name]; ok && ot.definition == t.definition && ot.created == t.created {
 			t.color = ot.color
 			t.converters = ot.converters
 			t.referencedBy = ot.referencedBy
@@ -1052,6 +1056,7 @@ func (mgr *Manager) AddTag(name, color, queryString string) error {
 		features:     features,
 		color:        color,
 		referencedBy: make(map[string]struct{}),
+		created:      new(byte),
 	}
 	for _, tn := range nt.referencedTags() {
 		if tn == name {
@@ -1270,6 +1275,7 @@ func (mgr *Manager) UpdateTag(name string, operation UpdateTagOperation) error {
 				newTag.color = tag.color
 				newTag.converters = tag.converters
 				newTag.referencedBy = tag.referencedBy
+				newTag.created = tag.created
 				newTag.Uncertain = mgr.allStreams
 				onlyBefore := map[string]struct{}{}
 				onlyAfter := map[string]struct{}{}
